@@ -104,6 +104,19 @@ CHECKS = {
     design_ref='DESIGN.md 5.10, 6 (C11)',
     note='Verdict only from real-code traces (projection of mempool, outpoint index, unconfirmed set, tx state records, notifications). Known finding F10 (block processed while the consumer is between mempool add and repository add) identified by a history predicate. Universes of 3-4 transactions; consumer/block/checker atomic except at the hook utx.afterMempool.',
     technique='TLA+ spec + TLC exhaustive invariants + schedule replay on the real node with trace validation'),
+ 'C04': dict(
+    engine='TxPipeline',
+    category='model_checking',
+    text='State-machine part in TLA+ (spec/TxPipeline.tla: proofs aligned with the relevant transactions of a block, new vs update, depth 0, '
+         'ConfirmedHasProof; checked exhaustively) plus a TLA+ enumeration of block shapes (spec/ProofCases.tla: sizes 1..9, 16, 17, every class '
+         'assignment up to size 5, one or two relevant positions beyond; classes relevant-unseen / relevant-unconfirmed / irrelevant-unseen / '
+         'irrelevant-seen) with the notification each transaction must get. Every shape is realised as a real block on the real node; each '
+         'delivered merkle proof is verified by an independent verifier against the header the node holds at that height and the true index; '
+         'bodies corrupted under the unchanged header (add/drop/swap/alter) must be rejected. TLC (Props_ProofCases) judges the recorded traces.',
+    design_ref='DESIGN.md 5.4, 6 (C04)',
+    note='The hash function is outside TLA+: the model carries tree shape and alignment, hash validity is a Go-side fact produced by the '
+         'independent verifier. quick samples a quarter of the larger shapes (all small ones); thorough runs all 1352.',
+    technique='TLA+ case enumeration + TLC judgement of replayed real blocks with an independent proof verifier'),
 }
 
 NOT_YET = {}
